@@ -290,12 +290,12 @@ class Session:
         self.emit(ev)
         return val
 
-    def deepcopy(self, x, group="", role=""):
+    def deepcopy(self, x, group="", role="", look=None):
         # looking at an object is not free of effects if it builds parts of itself on first use (an id made when first
         # read): every other copy is therefore taken BEFORE the recorder has looked at the original - as a program would
         # that builds a player and stores a copy without ever printing it - and the original is projected afterwards
         self._dc = getattr(self, "_dc", 0) + 1
-        if self._dc % 2 == 0:
+        if look == "after" or (look is None and self._dc % 2 == 0):
             kind, val, exc = self.outcome_of(lambda: copy.deepcopy(x))
             ev = {"op": "deepcopy", "arg": self.enc(x)}
         else:
